@@ -66,7 +66,7 @@ func runC12(env *Env) {
 	progs = append(progs, fixed...)
 	for i := 0; i < nProg; i++ {
 		g := &blkGen{rng: rng}
-		b := g.gen(3+rng.Intn(5), 3, true)
+		b := g.gen(4+rng.Intn(6), 3, true)
 		progs = append(progs, g.wrap(b, 1+rng.Intn(3)))
 	}
 	for pi, wrapped := range progs {
@@ -108,12 +108,13 @@ func runC12(env *Env) {
 			if ow.vars != of.vars {
 				rep.Violate("C12-inline", cs, fmt.Sprintf("final variables differ: wrapped %v, unwrapped %v", ow.vars, of.vars))
 			}
-			items = append(items, fmt.Sprintf("(%s,%s,%s,%s,%s)", wrapped.Coq(), envCoq(env0), natList(ow.first), ow.CoqScript(), envCoq(ow.vars)))
+			_, subs := BlkProgSubs(wrapped)
+			items = append(items, fmt.Sprintf("(%s,%s,%s,%s,%s,%s)", wrapped.Coq(), envCoq(env0), natList(ow.first), ow.CoqScript(), envCoq(ow.vars), SubEvents(subs, ow.log)))
 			if len(rep.Samples) < 4 && len(of.steps) > 2 {
 				rep.Sample(fmt.Sprintf("%s -> first pending %v, steps %s, completed %v", cs, ow.first, ow.CoqScript(), ow.completed))
 			}
 		}
 	}
-	_ = items
+	env.WriteCases(rep, "", "Corr.C12corr", "blk * list bool * list nat * list ostep * list bool * list (list nat)", items, "c12_mismatches")
 	env.WriteReport(rep)
 }
